@@ -49,6 +49,11 @@ CLAIMED["C02"] = dict(
     text="Postconditions on the real freshness kernel of mypy/build.py, proved for every file system (getmtime / stat / hash_digest are uninterpreted functions of the path), every stored record and every options value: find_cache_meta returns a record only if the format and layout version bytes match, the mypy version matches (or skip_version_check), the dependency lists are aligned, the recorded options snapshot equals the current one key by key (platform waived exactly under skip_version_check, obsolete debug_cache ignored), plugin snapshots / plugin data agree and the implementation part (meta_ex) was loaded; validate_meta accepts a record only if the data file's mtime equals the recorded one and the source's size, mtime or content hash still match (bazel / skip_cache_mtime_checks / fine-grained modes exactly as coded), and re-stamps a record only after an equal content hash; no exception other than the stated caller obligations escapes. The CacheMeta / CacheMetaEx records themselves round-trip (codec targets).",
     level_note="Kernel only: State.is_fresh / is_interface_fresh, find_stale_sccs and the transitive dependency comparison in process_stale_scc are not under contract in this round, so 'a dependency's interface hash changed' is not decided here. The file system enters as uninterpreted functions; file loading, CacheMeta.read and options_snapshot enter find_cache_meta through contracts (the first two are themselves verified targets: codec.CacheMeta*). sorted()/set() order facts are forgotten inside find_cache_meta's diagnostic loop (over-approximation).",
     technique="contract-based deductive verification: VC generation from the real AST against postconditions with uninterpreted file-system functions and ghost events; SMT discharge (z3, cvc5)")
+CLAIMED["C04"] = dict(
+    engine="pyvc", category="proof", design_ref="DESIGN.md section 5 C04",
+    text="Protocol clause, proved on the real store and write-path functions with every operating-system primitive and every store write free to fail, and stated over prefixes of the ghost event log so that it holds at every crash point: FilesystemMetadataStore.write never leaves a torn record (the record name is only touched by os.replace from a completely written, closed temporary holding exactly `data`; True means replaced and stamped); build.write_cache hands a meta record to its caller only if the data record it describes is in the store (interface unchanged, or the single data write succeeded), with data_mtime read from the store after that write and the interface hash taken over the bytes written, and writes no meta itself; find_cache_meta ignores an entry whose meta_ex record is missing or unreadable.",
+    level_note="Per-process sequences only; the coordinator/worker interleaving of a parallel build is not modelled. os.replace atomicity and sqlite transaction atomicity are trusted.",
+    technique="contract-based deductive verification: VC generation from the real AST against postconditions over a ghost event log (crash points = log prefixes), failing primitives by nondeterministic contracts; SMT discharge (z3, cvc5)")
 CLAIMED["C08"] = dict(
     engine="frames", category="proof", design_ref="DESIGN.md section 5 C08",
     text="One clause only ('answers do not depend on what the subtype caches contain') as a frame condition on mypy/subtypes.py: every SubtypeContext flag, proper_subtype and every state.<global> read by SubtypeVisitor is a component of build_subtype_kind's key, and the type_state cache entry points are only called with a kind built by build_subtype_kind.",
@@ -84,7 +89,6 @@ NOT_APPLICABLE = {
     "C17": "behaviour of argparse/configparser/tomllib over the whole flag table plus reflection; only enumeration (another family) applies (DESIGN.md 5 C17)",
     "C19": "validity of emitted stub text is a statement about running mypy/stubtest on the output (DESIGN.md 5 C19)",
     "C03": "not yet built in this round",
-    "C04": "not yet built in this round",
     "C06": "not yet built in this round (bounded stand-in planned)",
     "C10": "not yet built in this round",
     "C18": "not yet built in this round",
